@@ -87,9 +87,15 @@ bool AsyncSim::ha_endpoint_clean(const HRec &r, const Attempt &a, size_t ei, std
 	for (auto &xp : C.xfers) if (xp->ep == e.net_ep && (xp->st == Xfer::CONNECTING || xp->st == Xfer::QUEUED)) { why = "connect pending"; return false; }
 	// extender replies that contradict some request make the sub-service fail everything that waits
 	if (svc_ext) for (auto &f : frames) if (f.ep == (int)ei && f.clean_resp && f.arrive_seq <= hi) {
+		// the sub-service checks a reply against the request that bears its id (times, shape); a reply whose id no request of this
+		// endpoint bears is dropped silently
 		bool fits_any = false;
 		for (auto &rr : recs) if (frame_answers(f, *rr, true)) fits_any = true;
 		if (!fits_any) { why = "reply fits no request"; return false; }
+		for (auto &rq : e.request_log) if (rq.has_id && f.info.has_id && rq.id == f.info.id) {
+			bool fits = f.info.has_cal && f.info.cal_shape_ok && rq.has_agg_time && f.info.cal_agg == rq.agg_time && (!rq.has_pub_time || f.info.cal_pub == rq.pub_time);
+			if (!fits) { why = "reply contradicts the request bearing its id"; return false; }
+		}
 	}
 	return true;
 }
@@ -255,6 +261,21 @@ void AsyncSim::ha_final_checks() {
 			Xfer &x = *C.xfers[f.xfer];
 			if (!x.reported || rcv_to == 0 || x.done_seq == 0) all_read = false;
 			else if (backward_jump || K.now_ms - x.added_ms >= (int64_t)rcv_to * 1000) all_read = false;
+			else {
+				// ... and that request fails together with everything else that waits at this endpoint as soon as the sub-service meets a
+				// PDU it cannot accept, or a failed transfer: any such cause before this transfer completed may have failed it already
+				for (auto &g : frames) if (g.ep == f.ep && &g != &f && g.arrive_seq && g.arrive_seq < x.done_seq) {
+					bool plain_conf = !g.bad && g.info.has_conf && !g.info.has_resp && !g.info.has_error;
+					bool fits = g.clean_resp;
+					if (fits && svc_ext) {
+						fits = false;
+						for (auto &rq : eps[(size_t)g.ep].request_log) if (rq.has_id && g.info.has_id && rq.id == g.info.id)
+							fits = g.info.has_cal && g.info.cal_shape_ok && rq.has_agg_time && g.info.cal_agg == rq.agg_time && (!rq.has_pub_time || g.info.cal_pub == rq.pub_time);
+					}
+					if (!plain_conf && !fits) all_read = false;
+				}
+				for (auto &xp : C.xfers) if (xp->ep == x.ep && xp->done_seq && xp->done_seq < x.done_seq && (xp->result != CURLE_OK || xp->http_code >= 400)) all_read = false;
+			}
 		}
 	}
 	if (!pushes) return;
